@@ -253,7 +253,7 @@ PROPS = {
              "accepted connection, or requests issued during a held handshake; distinct canonical scripts.",
         assumptions=ASSUME_SIM,
         quick=dict(engines=[rapid('^TestC18', 1600, steps=40)]),
-        thorough=dict(engines=[rapid('^TestC18', 40000, shards=14, steps=70, timeout=1500)]),
+        thorough=dict(engines=[rapid('^TestC18', 24000, shards=14, steps=60, timeout=1800)]),
     ),
     'C05': dict(
         claimed=True,
